@@ -404,7 +404,23 @@ def r_c13_prependdate_lines_in_parts(s4, repo, scratch):
             'observed': 'as expected' if ok else 'differs: %r' % deco[:300], 'failed': not ok}
 
 
+def r_c12_first_line_longer_than_block(s4, repo, scratch):
+    """a first line longer than the block size: the file is printed as at any other block size"""
+    inp = os.path.join(scratch, 'c12_long_first_line.log')
+    body = ('2024-01-01 00:00:01 +00:00 ' + 'a' * 90 + '\n2024-01-01 00:00:02 +00:00 short\n').encode()
+    open(inp, 'wb').write(body)
+    bad = None
+    for b in ('64', '72', '100', '128', '4096'):
+        rc, out, err = run_s4(s4, ['--color', 'never', '--blocksz', b, inp])
+        if out != body:
+            bad = bad or (b, len(out))
+    return {'name': 'C12.first_line_longer_than_block', 'input': inp, 'how_made': 'two messages, the first line 118 bytes long',
+            'cmd': '%s --color never --blocksz 64|72|100|128|4096 %s' % (s4, inp), 'expected': 'the %d bytes of the file at every block size' % len(body),
+            'observed': 'identical at every block size' if not bad else '--blocksz %s prints %d bytes' % bad, 'failed': bool(bad)}
+
+
 RECIPES = {
+    'C12': [r_c12_first_line_longer_than_block],
     'C19': [r_c19_summary_bytes_match_stdout],
     'C02': [r_c02_continuation_at_block_boundary, r_c02_mixed_notation_first_message],
     'C04': [r_c04_instants, r_c04_fractions, r_c04_month_abbreviation_with_dot],
